@@ -243,12 +243,14 @@ def first_diff(a, b, cmp):
     return None
 
 
-def shrink(case, pred, budget=400):
-    """ddmin-ish: drop chunks of ops (never the first, the reset op) while pred(case) stays true."""
+def shrink(case, pred, budget=400, seconds=90):
+    """ddmin-ish: drop chunks of ops (never the first, the reset op) while pred(case) stays true. Bounded in
+    attempts and in wall-clock time (one attempt on a 60 k-op case costs a minute of model time)."""
     head, ops = case[:1], case[1:]
     n = 2
     tries = 0
-    while len(ops) >= 1 and tries < budget:
+    deadline = time.time() + seconds
+    while len(ops) >= 1 and tries < budget and time.time() < deadline:
         chunk = max(1, len(ops) // n)
         reduced = False
         for i in range(0, len(ops), chunk):
@@ -259,7 +261,7 @@ def shrink(case, pred, budget=400):
                 n = max(n - 1, 2)
                 reduced = True
                 break
-            if tries >= budget:
+            if tries >= budget or time.time() >= deadline:
                 break
         if not reduced:
             if chunk == 1:
@@ -338,6 +340,36 @@ def do_replay(pid, path):
     return 1 if bad else 0
 
 
+def corpus_cases(comp, pid):
+    """Corpus of one component: corpus/<component>/*.ops, plus corpus/<component>/only_<ID>_<ID>.../*.ops - (long)
+    cases that run for the named properties only."""
+    cdir = os.path.join(CORPUS, comp)
+    cases = []
+    if os.path.isdir(cdir):
+        files = [os.path.join(cdir, fn) for fn in sorted(os.listdir(cdir)) if fn.endswith(".ops")]
+        for sub in sorted(os.listdir(cdir)):
+            if sub.startswith("only_") and pid in sub.split("_")[1:] and os.path.isdir(os.path.join(cdir, sub)):
+                files += [os.path.join(cdir, sub, fn) for fn in sorted(os.listdir(os.path.join(cdir, sub))) if fn.endswith(".ops")]
+        for path in files:
+            cases.append(expand_ops([l.rstrip("\n") for l in open(path) if l.strip()]))
+    return cases
+
+
+def expand_ops(lines):
+    """`@repeat N` ... `@end` in a corpus file stands for N copies of the lines in between."""
+    out, i = [], 0
+    while i < len(lines):
+        if lines[i].startswith("@repeat "):
+            n = int(lines[i].split()[1])
+            j = lines.index("@end", i)
+            out += lines[i + 1:j] * n
+            i = j + 1
+        else:
+            out.append(lines[i])
+            i += 1
+    return out
+
+
 def main():
     ap = argparse.ArgumentParser()
     ap.add_argument("prop")
@@ -408,10 +440,7 @@ def main():
             cmp = props.cmp_for(comp)
             cases = []
             cdir = os.path.join(CORPUS, comp)
-            if os.path.isdir(cdir):
-                for fn in sorted(os.listdir(cdir)):
-                    if fn.endswith(".ops"):
-                        cases.append([l.rstrip("\n") for l in open(os.path.join(cdir, fn)) if l.strip()])
+            cases += corpus_cases(comp, pid)
             ncorpus = len(cases)
             cases += gen(seed, tier)
             res, trouble = run_cases(cases)
@@ -507,7 +536,8 @@ def main():
         # directed witness search on the implementation
         found = None
         if not tie_broken or "harness does not build" not in (tie_broken or ""):
-            for name, fam in P.get("directed", {}).items():
+            fams = [("corpus", lambda seed: [c for comp in P["components"] for c in corpus_cases(comp, pid)])]
+            for name, fam in fams + list(P.get("directed", {}).items()):
                 try:
                     cases = fam(seed)
                     res, tr = run_cases(cases)
